@@ -167,6 +167,22 @@ CLAIMS = {
          "foreign construct (Appendix A).",
          "Coq proof over a table-generated model of the code generators + in-Coq string equality with Array.readcode",
          "6.C06"),
+ 'C07': ("kernel-checked over ReadcodeRagged.v (on top of Readcode.v and the generated tables): for every language, "
+         "atom of any rank, value and index type, ANY index chain and ANY k, the accessor the program defines, "
+         "applied to the index and values arrays the two embedded array programs bind (C07_arrays, from C06), "
+         "returns exactly subarray k in the language's axis order and numbering; a zero-length subarray gives an "
+         "empty value whose dimensions, where the language gives it any, are the atom's in that order "
+         "(C07_accessor); the example binds subarray min(2, n-1) and names it first/second/third (C07_example); "
+         "code is withheld exactly when the value or index type has no token in the language's table, R also for "
+         "int64 indices beyond the int32 size range (C07_withheld); neither embedded program opens a file for "
+         "writing. Tie: the model's text must equal RaggedArray.readcode character for character over 9 languages "
+         "x 13 value types x 7 index types x atom rank 0-3 x subarray-count / zero-length patterns x 3 path "
+         "modes (compared inside coqc). Direct oracle / search: darr and numpymemmap programs are executed, the "
+         "other seven run by independent strict interpreters, the accessor called for every k, the example "
+         "evaluated, directory snapshots before/after. TRUSTED, not proved: the reading of range subscripts and "
+         "index origins (Appendix A).",
+         "Coq proof over a model of the ragged code generators + in-Coq string equality with RaggedArray.readcode",
+         "6.C07"),
  'C12': ("PARTIAL. Kernel-checked: Python's slice normalisation and the positions a slice selects for every "
          "start/stop/step incl. negative steps and out-of-range bounds (exactly lo, lo+step, ... on the "
          "right side of hi; always inside the axis), the size of a basic-index result; on the Sched model: "
